@@ -828,3 +828,240 @@ def ob_sign_arms(fns):
 
 
 SIGNING = [ob_sign_arms]
+
+
+# ------------------------------------------------------------------------------------------ TBSCertificate: which extensions are written
+
+def describe(x, depth=0):
+    """structural description of a symbolic value (for matching which object a writer was given)"""
+    if depth > 8:
+        return "..."
+    if isinstance(x, Cell):
+        return describe(x.v, depth + 1)
+    if isinstance(x, Ref):
+        return "&" + describe(x.cell.v, depth + 1)
+    if isinstance(x, Agg):
+        return x.kind + "{" + ",".join(describe(c, depth + 1) for c in x.fields) + "}"
+    if isinstance(x, E.EnumV):
+        return x.name + "[" + ";".join(n + ":" + ",".join(describe(p, depth + 1) for p in pl) for (n, pl) in x.variants) + "]"
+    if isinstance(x, Opaque):
+        return f"{x.what}({describe(x.data, depth + 1)})" if x.data is not None else x.what
+    if isinstance(x, (tuple, list)):
+        return "(" + ",".join(describe(y, depth + 1) for y in x) + ")"
+    if isinstance(x, Z):
+        return str(x.e)
+    return str(x)
+
+
+class Permissive:
+    """models.call wrapper for the TBS closure: everything not otherwise modelled is recorded as an event and returns an
+    opaque value (the obligation only speaks about which extension writers are reached and with which arguments)."""
+
+    def __init__(self, models):
+        self.m = models
+        self.orig = models.call
+
+    def __call__(self, eng, callee, args, st):
+        import re
+        c = callee
+
+        def one(v):
+            return [(st, v)]
+
+        def vec_name(v):
+            v = deref(v)
+            return v.data if isinstance(v, Opaque) and v.what == "vecflag" else None
+
+        if re.match(r"^Vec::<.*>::is_empty$", c) and vec_name(args[0]):
+            return one(Z(z3.Bool(vec_name(args[0]) + "_empty")))
+        if re.match(r"^Option::<NameConstraints>::iter$", c):
+            return one(Opaque("opt-iter", deref(args[0])))
+        if re.match(r"^<std::option::Iter<'_, NameConstraints> as Iterator>::any::<", c):
+            it = deref(args[0])
+            opt = it.data
+            out = []
+            s_none = st.clone()
+            s_none.pc.append(z3.Not(opt.cond))
+            if s_none.feasible():
+                out.append((s_none, Z(z3.BoolVal(False))))
+            st.pc.append(opt.cond)
+            if st.feasible():
+                for (s2, r) in eng.call_closure(args[1], [Ref(Cell(opt.payload))], st):
+                    out.append((s2, r))
+            return out
+        if re.match(r"^(certificate::)?NameConstraints::is_empty$", c):
+            return None     # inline the real body
+        if re.match(r"^(key_pair::)?KeyPair::public_key_der$", c):
+            return one(Opaque("public_key_der", deref(args[0])))
+        if re.match(r"^KeyIdMethod::derive::<", c):
+            return one(Opaque("derived-key-id", (deref(args[0]), args[1])))
+        if re.match(r"^<Vec<u8> as Clone>::clone$", c):
+            return one(Opaque("clone-of", deref(args[0])))
+        if re.match(r"^write_x509_authority_key_identifier$", c):
+            st.events.append(("ext", "AKI", False, args[1]))
+            return one(UNIT)
+        if re.match(r"^CertificateParams::write_subject_alt_names$", c):
+            st.events.append(("ext", "SAN", None, None))
+            return one(UNIT)
+        if re.match(r"^CertificateParams::write_key_usage$", c):
+            st.events.append(("ext", "KU-writer", None, None))
+            return one(UNIT)
+        if re.match(r"^write_x509_extension::<", c):
+            oid = args[1]
+            crit = args[2]
+            name = oid.data if isinstance(oid, Opaque) and oid.what == "oid-const" else ("custom" if True else None)
+            payload = None
+            clo = args[3] if len(args) > 3 and isinstance(args[3], E.Closure) else None
+            if clo is not None and name in ("SUBJECT_KEY_IDENTIFIER",):
+                # run the value closure to see which key identifier is written
+                sub = State()
+                sub.pc = list(st.pc)
+                sub.frames = []
+                evs = []
+                for (s2, r) in eng.call_closure(clo, [Opaque("writer")], st):
+                    evs = [e for e in s2.events if e[0] == "call" and e[1] == "write_bytes"]
+                    payload = evs[-1] if evs else None
+                    st = s2
+            st.events.append(("ext", name, crit.e if isinstance(crit, Z) else crit, payload))
+            return [(st, UNIT)]
+        if re.match(r"^write_distinguished_name$", c) or re.match(r"^(key_pair::)?serialize_public_key_der::<", c):
+            st.events.append(("call", c.split("::<")[0], ()))
+            return one(UNIT)
+        r = self.orig(eng, callee, args, st)
+        if r is not None:
+            return r
+        if self.m.resolve(eng, callee, args) is not None:
+            return None
+        # permissive fallback
+        st.events.append(("call", re.sub(r"::<.*", "", c), ()))
+        return one(Opaque("unknown-result", c))
+
+
+def ob_ext_presence(fns):
+    ob = Obligation("ext_presence", "TBSCertificate writer, all combinations of optional fields at once (symbolic presence flags): an extension is written iff it was "
+                                    "requested - in particular the extensions block is not skipped while any extension-bearing field is set; AKI = the issuer's "
+                                    "pre-specified identifier or derive(issuer's method, issuer key's SPKI); SKI = derive(own method, subject SPKI); criticality "
+                                    "constants; no extension written twice",
+                    ["CertificateParams::serialize_der_with_signer::{closure#0} (TBS closure) and its extension closures", "NameConstraints::is_empty"])
+    f = find(fns, r"serialize_der_with_signer::\{closure#0\}$")
+    for n_custom in (0, 1):
+        eng, models = setup(fns)
+        models.call = Permissive(models)
+        B = z3.Bool
+
+        def vecflag(n):
+            return Opaque("vecflag", n)
+
+        is_ca_d = z3.Int("is_ca_discr")
+        bc_d = z3.Int("bc_discr")
+        own_kid = E.EnumV("KeyIdMethod", z3.Int("own_kid_discr"), [("Sha256", []), ("Sha384", []), ("Sha512", []), ("PreSpecified", [Opaque("vec", "own-prespecified")])])
+        iss_kid = E.EnumV("KeyIdMethod", z3.Int("iss_kid_discr"), [("Sha256", []), ("Sha384", []), ("Sha512", []), ("PreSpecified", [Opaque("vec", "issuer-prespecified")])])
+        bc = E.EnumV("BasicConstraints", bc_d, [("Unconstrained", []), ("Constrained", [Z(z3.Int("path_len"))])])
+        is_ca = E.EnumV("IsCa", is_ca_d, [("NoCa", []), ("ExplicitNoCa", []), ("Ca", [bc])])
+        nc = Opt(B("nc_some"), Agg("NameConstraints", [Cell(vecflag("permitted")), Cell(vecflag("excluded"))]))
+        custom = [Agg("CustomExtension", [Cell(Opaque("vec", "custom-oid")), Cell(Z(B("custom_critical"))), Cell(Opaque("vec", "custom-content"))])][:n_custom]
+        params = Agg("CertificateParams", [
+            Cell(Opaque("not_before")), Cell(Opaque("not_after")), Cell(Opt(z3.BoolVal(True), Opaque("serial", "serial"))), Cell(vecflag("san")),
+            Cell(Opaque("subject_dn")), Cell(is_ca), Cell(vecflag("ku")), Cell(vecflag("eku")), Cell(nc), Cell(vecflag("crldp")),
+            Cell(E.ListV(custom)), Cell(Z(B("use_aki"))), Cell(own_kid)])
+        # `!custom_extensions.is_empty()` on the list model is concrete; nothing to add
+        issuer_key = Cell(Agg("KeyPair", [Cell(Opaque("kind")), Cell(Opaque("alg", "issuer-alg")), Cell(Opaque("secret"))]))
+        issuer = Agg("Issuer", [Cell(Ref(Cell(Opaque("issuer_dn")))), Cell(Ref(Cell(iss_kid))), Cell(Ref(Cell(vecflag("issuer_ku")))), Cell(Ref(issuer_key))])
+        pubkey = Cell(Opaque("subject_pubkey", "subject_pubkey"))
+        # closure environment: captured variables in order (pub_key, self, issuer) - read from the closure's debug info
+        caps = []
+        for line in f.text.split("\n"):
+            import re as _re
+            mm = _re.match(r"^\s+debug (\w+) => .*\(_1\.(\d+): ", line)
+            if mm:
+                caps.append((int(mm.group(2)), mm.group(1)))
+        caps = sorted(set(caps))
+        env_fields = []
+        iss_kid_cell = Cell(iss_kid)
+        issuer.fields[1] = Cell(Ref(iss_kid_cell))
+        for idx, name in caps:
+            if name == "self":
+                env_fields.append(Cell(Ref(Cell(params))))
+            elif name == "pub_key":
+                env_fields.append(Cell(Ref(pubkey)))
+            elif name == "issuer":
+                env_fields.append(Cell(issuer))
+            elif name == "issuer__distinguished_name":
+                env_fields.append(Cell(Ref(Cell(Ref(Cell(Opaque("issuer_dn")))))))
+            elif name == "issuer__key_identifier_method":
+                env_fields.append(Cell(Ref(iss_kid_cell)))
+            elif name == "issuer__key_pair":
+                env_fields.append(Cell(Ref(issuer_key)))
+            elif name == "issuer__key_usages":
+                env_fields.append(Cell(Ref(Cell(vecflag("issuer_ku")))))
+            else:
+                raise Unsupported(f"TBS closure captures unknown variable {name}")
+        if len(env_fields) < 3 or [i for i, _ in caps] != list(range(len(caps))):
+            raise Unsupported(f"TBS closure environment not understood: {caps}")
+        st = State()
+        st.pc += [is_ca_d >= 0, is_ca_d <= 2, bc_d >= 0, bc_d <= 1, z3.Int("own_kid_discr") >= 0, z3.Int("own_kid_discr") <= 3,
+                  z3.Int("iss_kid_discr") >= 0, z3.Int("iss_kid_discr") <= 3]
+        clo = E.Closure(f, Agg("closure", env_fields))
+        for (s2, ret) in eng.call_closure(clo, [Ref(Cell(Opaque("writer")))], st):
+            sol = z3.Solver()
+            sol.add(*s2.pc)
+            if sol.check() != z3.sat:
+                continue
+            ob.paths += 1
+            ob.reach = True
+            exts = [e for e in s2.events if e[0] == "ext"]
+            names = [e[1] for e in exts]
+            nc_req = z3.And(B("nc_some"), z3.Not(z3.And(B("permitted_empty"), B("excluded_empty"))))
+            requested = {
+                "AKI": B("use_aki"), "SAN": z3.Not(B("san_empty")), "KU-writer": z3.Not(B("ku_empty")), "EXT_KEY_USAGE": z3.Not(B("eku_empty")),
+                "NAME_CONSTRAINTS": nc_req, "CRL_DISTRIBUTION_POINTS": z3.Not(B("crldp_empty")),
+                "SUBJECT_KEY_IDENTIFIER": is_ca_d != 0, "BASIC_CONSTRAINTS": is_ca_d != 0,
+            }
+            crit_want = {"EXT_KEY_USAGE": False, "NAME_CONSTRAINTS": True, "CRL_DISTRIBUTION_POINTS": False, "SUBJECT_KEY_IDENTIFIER": False,
+                         "BASIC_CONSTRAINTS": True, "AKI": False}
+            bad = None
+            for nm, req in requested.items():
+                cnt = names.count(nm)
+                if cnt > 1:
+                    bad = f"{nm} written {cnt} times"
+                    break
+                # (the key-usage writer is called unconditionally inside the block and decides itself; presence is only required)
+                present = z3.BoolVal(cnt == 1)
+                goal = (present == req) if nm != "KU-writer" else z3.Implies(req, present)
+                r = check_valid(ob, s2.pc, goal, f"ext/{nm}/custom{n_custom}")
+                if r is not None and r != "infeasible":
+                    bad = f"{nm}: written={cnt == 1} although requested is {'true' if cnt == 0 else 'false'} for some parameters on this path"
+                    break
+            if bad is None:
+                if names.count("custom") != n_custom:
+                    bad = f"{names.count('custom')} custom extension(s) written, {n_custom} requested"
+                unknown = [n for n in names if n not in requested and n != "custom"]
+                if unknown:
+                    bad = f"unrequested extension written: {unknown}"
+            if bad is None:
+                for e in exts:
+                    if e[1] in crit_want and e[2] is not None:
+                        val = e[2]
+                        ok = (z3.is_true(z3.simplify(val)) if crit_want[e[1]] else z3.is_false(z3.simplify(val))) if z3.is_expr(val) else (bool(val) == crit_want[e[1]])
+                        if not ok:
+                            bad = f"{e[1]}: criticality is not {crit_want[e[1]]}"
+                    if e[1] == "AKI":
+                        v = deref(e[3])
+                        d = describe(v)
+                        pre = d.startswith("clone-of(") and "issuer-prespecified" in d and "own-prespecified" not in d
+                        der = isinstance(v, Opaque) and v.what == "derived-key-id" and "issuer-prespecified" in describe(v.data[0]) \
+                            and describe(v.data[1]).startswith("public_key_der(") and "issuer-alg" in describe(v.data[1])
+                        if not (pre or der):
+                            bad = "AKI is neither the issuer's pre-specified identifier nor derive(issuer's method, issuer key's SPKI)"
+                    if e[1] == "SUBJECT_KEY_IDENTIFIER":
+                        d = describe(e[3])
+                        if not ("derived-key-id" in d and "own-prespecified" in d and "issuer-prespecified" not in d and "public_key_der" not in d and "der-bytes" in d):
+                            bad = "SKI is not derive(own key-identifier method, subject SPKI)"
+            if bad:
+                ob.result, ob.cex = "fail", {"op": "ext-presence", "note": bad, "extensions_on_path": names}
+                return ob
+    ob.result = "pass" if ob.reach else "inconclusive"
+    return ob
+
+
+TBS = [ob_ext_presence]
